@@ -6,8 +6,6 @@ ids = [json.loads(l)['id'] for l in open(os.path.join(HERE, 'properties.jsonl'))
 
 NA = {
  "C06": "equality of Seal's output with SP 800-38D for all keys, nonces, lengths and counter values is a statement about values computed by ~14k vector instructions; no necessary structural clause of it is stable under behaviour-preserving edits. Its shape parts are decided under C07, C10, C11, C18 (DESIGN.md section 6)",
- "C14": "[k]G, [k]P and [g]G+[s]P for all scalars are group-element values; the bit coverage of the comb/window schedule lives in loop-index arithmetic over run-time values. Table contents and table shape vs. use are decided under C18, formulas under C15, scalar-length contracts under C01 (DESIGN.md section 6)",
- "C20": "exactness of the borrow-chain comparison and of the signed-window recoding are inductive arithmetic facts over all byte strings / 256-bit integers, not code shape; their constant-time shape is decided under C08 (DESIGN.md section 6)",
 }
 
 # id -> (level, technique, text, note, design_ref)
@@ -24,7 +22,7 @@ m = {
            "baseline_off_cmd": "cd /repo && GOFLAGS=-mod=mod GOPROXY=off GOSUMDB=off go test -vet=off -count=1 ./...",
            "source_commits": [], "add_only": True},
  "engines": [
-  {"name": "smgocheck", "path": "checker/", "serves_properties": sorted(CHECKS), "kind_free_text": "one Go binary (x/tools v0.29.0): go/packages+go/ssa loader for GOARCH amd64/arm64/386, constant folder and polynomial/exponent abstract evaluation, SSA secret-taint / slice-length / guard / effect analyses, and an assembler front end over `go tool asm -S` listings with taint, store-provenance and access-extent dataflow"}],
+  {"name": "smgocheck", "path": "checker/", "serves_properties": sorted(CHECKS), "kind_free_text": "one Go binary (x/tools v0.29.0): go/packages+go/ssa loader for GOARCH amd64/arm64/386, constant folder and polynomial/exponent abstract evaluation, SSA secret-taint / slice-length / guard / effect analyses, abstract interpreters for the Fiat primitives, the comparison loop and the scalar-multiplication schedules, and an assembler front end over `go tool asm -S` listings with taint, store-provenance and access-extent dataflow"}],
  "checks": [],
  "notes": "Static analysis only: every verdict is computed from /repo's current source (Go AST/types/SSA and the assembler's macro-expanded listing) without executing SMGo code. Genuine defects found on the pinned tree were repaired by separate 'fix:' commits in /repo and are listed as fixed in known_findings.json. See DESIGN.md.",
  "not_applicable": [],
